@@ -26,6 +26,7 @@ structure Safe (cfg : Cfg) (s : Sys) : Prop where
   ewgCount : s.ewg = (if live s.em1 then 1 else 0) + (if live s.em2 then 1 else 0)
   ecloserWg : s.ecloser ≠ .waiting → s.ewg = 0
   merrClosed : s.merr.closed = true → s.ecloser = .finished
+  ecloserFin : s.ecloser = .finished → s.merr.closed = true
 
 /-! local facts -/
 
@@ -83,7 +84,8 @@ theorem closerStep_safe {waits wg c out e c' out' pn}
     (hc : out.closed = true → c = .finished) :
     (c' ≠ .waiting → (c ≠ .waiting ∨ wg = 0)) ∧
     (out'.closed = true → c' = .finished) ∧
-    (pn = true → out.closed = true ∧ c = .closing) := by
+    (pn = true → out.closed = true ∧ c = .closing) ∧
+    (c' = .finished → out'.closed = true) := by
   cases e <;> cases c <;> simp [closerStep, closeCh, hw] at h
   · obtain ⟨h0, h1, h2, h3⟩ := h; subst h1 h2 h3; simp_all
   · obtain ⟨h1, h2, h3⟩ := h; subst h1 h2 h3; simp_all
@@ -101,7 +103,7 @@ theorem safe_init (cfg : Cfg) (inp : Input) : Safe cfg (init inp) := by
 
 set_option maxHeartbeats 1000000 in
 theorem safe_sender {cfg inp s s' e} (hs : Safe cfg s) (h : senderStep cfg inp s e = some s') : Safe cfg s' := by
-  obtain ⟨h1, h2, h3, h4, h5, h6, h7, h8, h9, h10, h11, h12⟩ := hs
+  obtain ⟨h1, h2, h3, h4, h5, h6, h7, h8, h9, h10, h11, h12, h13⟩ := hs
   have hne := first_ne_second cfg
   cases e <;> simp only [senderStep] at h <;> split at h <;> try (simp at h; done)
   · -- recv
@@ -160,7 +162,7 @@ theorem safe_step {cfg inp s s' ev} (hwf : cfg.WF) (hs : Safe cfg s) (h : step c
   cases ev with
   | sender e => exact safe_sender hs h
   | envSend =>
-    obtain ⟨h1, h2, h3, h4, h5, h6, h7, h8, h9, h10, h11, h12⟩ := hs
+    obtain ⟨h1, h2, h3, h4, h5, h6, h7, h8, h9, h10, h11, h12, h13⟩ := hs
     simp only [step] at h
     split at h <;> try (simp at h; done)
     rename_i r rest htodo
@@ -176,19 +178,19 @@ theorem safe_step {cfg inp s s' ev} (hwf : cfg.WF) (hs : Safe cfg s) (h : step c
         · simp [h9 hcl] at htodo
       constructor <;> simp_all
   | envSkip =>
-    obtain ⟨h1, h2, h3, h4, h5, h6, h7, h8, h9, h10, h11, h12⟩ := hs
+    obtain ⟨h1, h2, h3, h4, h5, h6, h7, h8, h9, h10, h11, h12, h13⟩ := hs
     simp only [step] at h
     split at h <;> try (simp at h; done)
     split at h <;> simp at h; subst h
     constructor <;> simp_all
   | envClose =>
-    obtain ⟨h1, h2, h3, h4, h5, h6, h7, h8, h9, h10, h11, h12⟩ := hs
+    obtain ⟨h1, h2, h3, h4, h5, h6, h7, h8, h9, h10, h11, h12, h13⟩ := hs
     simp only [step] at h
     split at h <;> try (simp at h; done)
     split at h <;> simp at h; subst h
     constructor <;> simp_all
   | rcvSend =>
-    obtain ⟨h1, h2, h3, h4, h5, h6, h7, h8, h9, h10, h11, h12⟩ := hs
+    obtain ⟨h1, h2, h3, h4, h5, h6, h7, h8, h9, h10, h11, h12, h13⟩ := hs
     simp only [step] at h
     split at h <;> try (simp at h; done)
     rename_i r rest htodo
@@ -204,34 +206,34 @@ theorem safe_step {cfg inp s s' ev} (hwf : cfg.WF) (hs : Safe cfg s) (h : step c
         · simp [h8 hcl] at htodo
       constructor <;> simp_all
   | rcvSkip =>
-    obtain ⟨h1, h2, h3, h4, h5, h6, h7, h8, h9, h10, h11, h12⟩ := hs
+    obtain ⟨h1, h2, h3, h4, h5, h6, h7, h8, h9, h10, h11, h12, h13⟩ := hs
     simp only [step] at h
     split at h <;> try (simp at h; done)
     split at h <;> simp at h; subst h
     constructor <;> simp_all
   | rcvClose =>
-    obtain ⟨h1, h2, h3, h4, h5, h6, h7, h8, h9, h10, h11, h12⟩ := hs
+    obtain ⟨h1, h2, h3, h4, h5, h6, h7, h8, h9, h10, h11, h12, h13⟩ := hs
     simp only [step] at h
     split at h <;> try (simp at h; done)
     split at h <;> simp at h; subst h
     constructor <;> simp_all
   | consume =>
-    obtain ⟨h1, h2, h3, h4, h5, h6, h7, h8, h9, h10, h11, h12⟩ := hs
+    obtain ⟨h1, h2, h3, h4, h5, h6, h7, h8, h9, h10, h11, h12, h13⟩ := hs
     simp only [step] at h
     split at h <;> simp at h; subst h
     constructor <;> simp_all
   | cancel =>
-    obtain ⟨h1, h2, h3, h4, h5, h6, h7, h8, h9, h10, h11, h12⟩ := hs
+    obtain ⟨h1, h2, h3, h4, h5, h6, h7, h8, h9, h10, h11, h12, h13⟩ := hs
     simp only [step] at h
     simp at h; subst h
     constructor <;> simp_all
   | gc b =>
-    obtain ⟨h1, h2, h3, h4, h5, h6, h7, h8, h9, h10, h11, h12⟩ := hs
+    obtain ⟨h1, h2, h3, h4, h5, h6, h7, h8, h9, h10, h11, h12, h13⟩ := hs
     simp only [step] at h
     split at h <;> simp at h; subst h
     constructor <;> simp_all
   | closer e =>
-    obtain ⟨h1, h2, h3, h4, h5, h6, h7, h8, h9, h10, h11, h12⟩ := hs
+    obtain ⟨h1, h2, h3, h4, h5, h6, h7, h8, h9, h10, h11, h12, h13⟩ := hs
     simp only [step] at h
     split at h <;> try (simp at h; done)
     rename_i c o pn hst
@@ -240,13 +242,13 @@ theorem safe_step {cfg inp s s' ev} (hwf : cfg.WF) (hs : Safe cfg s) (h : step c
     have hpn : pn = false := by
       cases hp : pn
       · rfl
-      · have := hh.2.2 hp; simp_all
+      · have := hh.2.2.1 hp; simp_all
     constructor <;> simp_all
     intro hc; rcases hh.1 hc with h | h
     · exact h4 h
     · exact h
   | ecloser e =>
-    obtain ⟨h1, h2, h3, h4, h5, h6, h7, h8, h9, h10, h11, h12⟩ := hs
+    obtain ⟨h1, h2, h3, h4, h5, h6, h7, h8, h9, h10, h11, h12, h13⟩ := hs
     simp only [step] at h
     split at h <;> try (simp at h; done)
     rename_i c o pn hst
@@ -255,7 +257,7 @@ theorem safe_step {cfg inp s s' ev} (hwf : cfg.WF) (hs : Safe cfg s) (h : step c
     have hpn : pn = false := by
       cases hp : pn
       · rfl
-      · have := hh.2.2 hp
+      · have := hh.2.2.1 hp
         rw [h12 this.1] at this; simp at this
     constructor <;> simp <;> try assumption
     · simp [h1, hpn]
@@ -263,8 +265,9 @@ theorem safe_step {cfg inp s s' ev} (hwf : cfg.WF) (hs : Safe cfg s) (h : step c
       · exact h11 h
       · exact h
     · exact hh.2.1
+    · exact hh.2.2.2
   | worker i e =>
-    obtain ⟨h1, h2, h3, h4, h5, h6, h7, h8, h9, h10, h11, h12⟩ := hs
+    obtain ⟨h1, h2, h3, h4, h5, h6, h7, h8, h9, h10, h11, h12, h13⟩ := hs
     simp only [step] at h
     split at h <;> try (simp at h; done)
     split at h <;> try (simp at h; done)
@@ -278,7 +281,7 @@ theorem safe_step {cfg inp s s' ev} (hwf : cfg.WF) (hs : Safe cfg s) (h : step c
     · simp at hcnt; omega
     · rw [hh.2.2]; exact h9
   | mux i e =>
-    obtain ⟨h1, h2, h3, h4, h5, h6, h7, h8, h9, h10, h11, h12⟩ := hs
+    obtain ⟨h1, h2, h3, h4, h5, h6, h7, h8, h9, h10, h11, h12, h13⟩ := hs
     simp only [step] at h
     split at h <;> try (simp at h; done)
     split at h <;> try (simp at h; done)
@@ -313,7 +316,7 @@ theorem safe_step {cfg inp s s' ev} (hwf : cfg.WF) (hs : Safe cfg s) (h : step c
       · simp; omega
     · rw [hh.2.1]; exact h5
   | emux j e =>
-    obtain ⟨h1, h2, h3, h4, h5, h6, h7, h8, h9, h10, h11, h12⟩ := hs
+    obtain ⟨h1, h2, h3, h4, h5, h6, h7, h8, h9, h10, h11, h12, h13⟩ := hs
     cases j
     · simp only [step] at h
       split at h <;> try (simp at h; done)
@@ -341,6 +344,7 @@ theorem safe_step {cfg inp s s' ev} (hwf : cfg.WF) (hs : Safe cfg s) (h : step c
         · simp; exact h0
         · simp; omega
       · rw [hh.2.1]; exact h12
+      · rw [hh.2.1]; exact h13
     · simp only [step] at h
       split at h <;> try (simp at h; done)
       rename_i r hst
@@ -367,6 +371,7 @@ theorem safe_step {cfg inp s s' ev} (hwf : cfg.WF) (hs : Safe cfg s) (h : step c
         · simp; exact h0
         · simp; omega
       · rw [hh.2.1]; exact h12
+      · rw [hh.2.1]; exact h13
 
 theorem reachable_safe {cfg inp s} (hwf : cfg.WF) (h : Reachable cfg inp s) : Safe cfg s := by
   induction h with
